@@ -280,6 +280,9 @@ structure VState where
   att    : Option AttState
   deriving Inhabited
 
+def treeOfEntry (W : World) (e : LogEntry) : Nat :=
+  match targetCommit e with | some c => W.treeOf c | none => 0
+
 /-- the `lookForFixes` loop (verify.go:655-712).  Returns (fixed?, fix index, unskipped intermediates?, new queue). -/
 def lookForFix (W : World) (ref : String) (goodTree : Nat) :
     List Nat → List Nat → Bool → (Option Nat × Bool × List Nat)
@@ -291,8 +294,7 @@ def lookForFix (W : World) (ref : String) (goodTree : Nat) :
       if e.ref != ref then lookForFix W ref goodTree rest (newQ ++ [j]) bad
       else if e.kind == .prop then lookForFix W ref goodTree rest (newQ ++ [j]) bad
       else
-        let t := match targetCommit e with | some c => W.treeOf c | none => 0
-        if t == goodTree && !W.skipped j then (some j, bad, newQ ++ rest)
+        if W.treeOfEntry e == goodTree && !W.skipped j then (some j, bad, newQ ++ rest)
         else lookForFix W ref goodTree rest newQ (bad || !W.skipped j)
 
 /-- main loop of `VerifyRelativeForRef` (verify.go:511-737) over the queue of log indices. -/
